@@ -118,3 +118,21 @@ Definition w_step (s : wst) (op : wop) : wst :=
 Definition w_run (prog : list wop) : wst := fold_left w_step prog w_init.
 Definition w_wire (s : wst) : bytes := concat (map enc_frame (w_out s)).
 End Writer.
+
+(* ---- writeFramePayload for a client (write.go:318-355), with the bufio.Writer made explicit ----
+   state: bytes already handed to the transport, bytes sitting in the 4096-byte buffer, the carried key *)
+Fixpoint wp_loop (fuel cap : nat) (wire buffered : bytes) (k : key) (p : bytes) : bytes * bytes * key :=
+  match fuel with
+  | O => (wire, buffered, k)
+  | S f =>
+    match p with
+    | [] => (wire, buffered, k)
+    | _ =>
+      (* if c.bw.Available() == 0 { c.bw.Flush() } *)
+      let '(wire1, buf1) := if Nat.eqb (cap - length buffered) 0 then (wire ++ buffered, []) else (wire, buffered) in
+      (* j := min(len(p), Available()); copy p[:j] into the buffer; mask that region of the BUFFER with the carried key *)
+      let j := Nat.min (length p) (cap - length buf1) in
+      let '(m, k') := maskGo k (firstn j p) in
+      wp_loop f cap wire1 (buf1 ++ m) k' (skipn j p)
+    end
+  end.
